@@ -490,7 +490,18 @@ pub fn gen_calls(t: &mut Tape, layout: &Layout) -> Vec<Call> {
                 };
                 Call::Text { name: f.name.clone(), text }
             }
-            2 => Call::Set { name: t.pick(&["nope", "", "p999"]).to_string(), value: gen_value(t, f.ty, f.default, &f.constraint) },
+            2 => {
+                // unknown names, among them an existing name in the wrong case (names are case sensitive)
+                let wrong_case = if f.name.to_uppercase() != f.name { f.name.to_uppercase() } else { f.name.to_lowercase() };
+                let known = layout.fields.iter().any(|g| g.name == wrong_case);
+                let name = match t.below(4) {
+                    0 if !known => wrong_case,
+                    1 => "nope".to_string(),
+                    2 => String::new(),
+                    _ => "p999".to_string(),
+                };
+                Call::Set { name, value: gen_value(t, f.ty, f.default, &f.constraint) }
+            }
             _ => Call::Text { name: t.pick(&["nope", "", "p999"]).to_string(), text: "T0".to_string() },
         });
     }
